@@ -124,9 +124,40 @@ fn rule_variants(name: &str, kind: RuleKind, k: usize) -> Vec<String> {
     v
 }
 
+/// every node path of a compiled table as a dotted name ("co.uk"), read from the data the public `Table` trait exposes
+fn table_paths<T: public_suffix::Table>(_: &public_suffix::ListProvider<T>) -> Vec<String> {
+    let label = |i: usize| -> &'static str {
+        let mut x = T::NODES[i];
+        let length = (x & ((1 << T::NODES_BITS_TEXT_LENGTH) - 1)) as usize;
+        x >>= T::NODES_BITS_TEXT_LENGTH;
+        let offset = (x & ((1 << T::NODES_BITS_TEXT_OFFSET) - 1)) as usize;
+        &T::TEXT[offset..][..length]
+    };
+    let children = |i: usize| -> (usize, usize) {
+        let mut u = T::NODES[i] >> (T::NODES_BITS_TEXT_OFFSET + T::NODES_BITS_TEXT_LENGTH + T::NODES_BITS_ICANN);
+        u = T::CHILDREN[(u & ((1 << T::NODES_BITS_CHILDREN) - 1)) as usize];
+        let lo = u & ((1 << T::CHILDREN_BITS_LO) - 1);
+        let hi = (u >> T::CHILDREN_BITS_LO) & ((1 << T::CHILDREN_BITS_HI) - 1);
+        (lo as usize, hi as usize)
+    };
+    let mut out = vec![];
+    let mut stack: Vec<(usize, String)> = (0..T::NUM_TLD as usize).map(|i| (i, label(i).to_string())).collect();
+    while let Some((i, name)) = stack.pop() {
+        let (lo, hi) = children(i);
+        for c in lo..hi.min(T::NODES.len()) {
+            if out.len() + stack.len() < 200_000 {
+                stack.push((c, format!("{}.{name}", label(c))));
+            }
+        }
+        out.push(name);
+    }
+    out.sort();
+    out
+}
+
 pub fn run(ctx: &mut Ctx) {
     let fs = ctx.first_shard();
-    ctx.rule = "sweep: every rule of public_suffix_list.dat (A-label form) as itself, with 1-3 labels prepended, with its leading label removed and replaced, and with each of the list's most frequent labels (48 in the quick tier, all that occur twice in the thorough tier) placed directly below it; random: 1-8 labels from the list's label vocabulary and fresh labels, optionally on top of a list rule; structural: arbitrary strings (ASCII/Unicode/empty labels/long/mixed case). Non-trivial = canonical name whose prevailing rule is not the implicit '*'; distinct by name.".into();
+    ctx.rule = "sweep: every rule of public_suffix_list.dat (A-label form) as itself, with 1-3 labels prepended, with its leading label removed and replaced, and with each of the list's most frequent labels (48 in the quick tier, all that occur twice in the thorough tier) placed directly below it; every node path of the compiled table (read through the public Table constants) as a name and with one more label; random: 1-8 labels from the list's label vocabulary and fresh labels, optionally on top of a list rule; structural: arbitrary strings (ASCII/Unicode/empty labels/long/mixed case). Non-trivial = canonical name whose prevailing rule is not the implicit '*'; distinct by name.".into();
     ctx.assumptions = vec![
         "agreement with the reference is asserted for every name without empty labels; the reference matches labels literally against the list's A-label rules (so upper-case or Unicode labels match no rule, exactly like in a byte-wise table lookup); strings with empty labels get the structural checks only".into(),
         "the reference converts Unicode rules of the .dat with the idna crate (UTS-46 to-ASCII)".into(),
@@ -210,6 +241,27 @@ pub fn run(ctx: &mut Ctx) {
                     Err(e) => {
                         ctx.violation("sweep-below", json!({"name": d}), &e);
                         break 'below;
+                    }
+                }
+            }
+        }
+    }
+
+    // ---- stage 1c: the other direction — every path of the compiled table (read through the public `Table` constants)
+    // as a name, with and without a further label: a rule that only the table knows shows as a disagreement
+    if fs {
+        let paths = table_paths(&DEFAULT_PROVIDER);
+        ctx.note("paths_in_compiled_table", json!(paths.len()));
+        'table: for path in &paths {
+            for d in [path.clone(), format!("x.{path}")] {
+                ctx.eval();
+                match check_canonical(&psl, &d) {
+                    Ok(p) => {
+                        ctx.class(&format!("table-walk/{}", prevailing_name(p)));
+                    }
+                    Err(e) => {
+                        ctx.violation("sweep-table", json!({"name": d}), &format!("{e} [name taken from the compiled table]"));
+                        break 'table;
                     }
                 }
             }
